@@ -232,7 +232,10 @@ def is_youtube_url(url):
         bool: Whether given url is from Youtube.
 
     """
-    return YOUTUBE_DOMAINS_TRIE.match(url)
+    try:
+        return YOUTUBE_DOMAINS_TRIE.match(url)
+    except ValueError:
+        return False
 
 
 def is_youtube_video_id(value):
@@ -269,7 +272,10 @@ def parse_youtube_url(url, fix_common_mistakes=True):
         return YoutubeVideo(id=m.group(1), playlist=list_query)
 
     # Parsing
-    parsed = safe_urlsplit(url)
+    try:
+        parsed = safe_urlsplit(url)
+    except ValueError:
+        return None
 
     if not is_youtube_url(parsed):
         return
